@@ -24,7 +24,7 @@ def FLOORS(tier):
          "complete-assignment": 100, "empty-assignment": 60, "plain-polynomial:subvalue": 60,
          "plain-polynomial:subgraph": 60, "values-container:defaultdict": 150, "values-container:Counter": 150,
          "sympy-number-coefficients": 200, "narrow-numpy-coefficients": 200, "values-container:MappingProxyType": 80,
-         "values-container:ChainMap": 80, "normalize-method:again-after-raw-removal": 40}
+         "values-container:ChainMap": 80, "normalize-method:again-after-raw-removal": 40, "subgraph:refused-call-first": 100}
     for fn in ("subvalue", "subgraph", "normalize"):
         for t in ALLT:
             f["%s:%s" % (fn, t)] = 40 if q else 1500
@@ -209,6 +209,21 @@ def case(ctx, rng, idx):
         if rng.random() < 0.7:
             conn = {x: rng.choice([0, 1, -1, 2]) for x in rng.sample(labs, rng.randint(0, len(labs)))}
         w["nodes"], w["connections"] = nodes, conn
+        if rng.random() < 0.12:
+            # a call that must be refused (a connection value that is no number, nodes that are no container) comes first;
+            # whatever it raises, G is still G and the valid call below still answers for G
+            badkw = rng.choice([("connections", {x: None for x in labs}), ("connections", {x: "high" for x in labs}), ("nodes", 5)])
+            ctx.cat("subgraph:refused-call-first")
+            try:
+                if badkw[0] == "nodes":
+                    L.utils.subgraph(m, badkw[1], conn)
+                else:
+                    L.utils.subgraph(m, set(), badkw[1])
+            except Exception:   # noqa
+                pass
+            if dict(m) != snap or list(m.items()) != list(snap.items()):
+                ctx.violation("subgraph:argument-mutated-by-a-refused-call", "a refused call changed G from %r to %r" % (snap, dict(m)), w)
+                return
         csnap = None
         if conn is not None:
             conn, csnap = container(ctx, rng, conn, w)
